@@ -702,6 +702,17 @@ def arith(kind, a, b):
             if hb < 0:
                 raise modelled(ValueError('negative shift count'))
         if kind == 'shl':
+            if hb > 64 and eb is not None:
+                # interval arithmetic lost the bound on the shift count: ask the solver (sound under the current
+                # path condition) for a small power-of-two bound
+                wb = bits_for(lb, hb)
+                xbq = ext(eb, wb)
+                for kbits in (3, 4, 5, 6, 8, 12):
+                    if (1 << kbits) - 1 >= hb:
+                        break
+                    if CTX.check(xbq >= z3.BitVecVal(1 << kbits, wb)) == z3.unsat:
+                        hb = (1 << kbits) - 1
+                        break
             if hb > 4096:
                 raise EngineLimit('shift count up to %d' % hb)
             lo, hi = min(la << lb, la << hb), max(ha << lb, ha << hb)
